@@ -92,7 +92,7 @@ var keyTypes = []reflect.Type{reflect.TypeOf(""), reflect.TypeOf(int(0)), reflec
 func (g *Gen) scalar() reflect.Type {
 	r := g.R
 	if !g.Cfg.RefOnly && r.Chance(1, 14) {
-		return reflect.ArrayOf(core.Pick(r, []int{1, 4, 16, 33}), reflect.TypeOf(byte(0)))
+		return reflect.ArrayOf(core.Pick(r, []int{1, 2, 3, 4, 5, 6, 7, 8, 9, 10, 14, 15, 16, 17, 22, 33}), reflect.TypeOf(byte(0)))
 	}
 	if g.Cfg.Custom && !g.Cfg.RefOnly && r.Chance(1, 12) {
 		return core.Pick(r, []reflect.Type{TMsg, TGogo, TRaw})
@@ -354,6 +354,9 @@ func (f *Filler) length() int {
 func (f *Filler) Fill(v reflect.Value, depth int) {
 	r := f.R
 	t := v.Type()
+	if depth > 12 { // recursive declared types: stop here (zero value)
+		return
+	}
 	switch t {
 	case TMsg:
 		v.Field(0).SetBytes(r.Bytes(r.Intn(20)))
@@ -433,8 +436,13 @@ func (f *Filler) Fill(v reflect.Value, depth int) {
 		for i := 0; i < t.Len(); i++ {
 			v.Index(i).SetUint(uint64(r.Intn(256)))
 		}
-		if r.Chance(1, 4) {
+		switch r.Intn(8) {
+		case 0, 1:
 			v.SetZero()
+		case 2, 3: // sparse: all zero except one byte (first, last, anywhere) - zero tests by words
+			v.SetZero()
+			i := []int{0, t.Len() - 1, r.Intn(t.Len())}[r.Intn(3)]
+			v.Index(i).SetUint(uint64(1 + r.Intn(255)))
 		}
 	case reflect.Pointer:
 		if r.Chance(1, 4) {
@@ -602,15 +610,21 @@ func hasExported(t reflect.Type) bool {
 }
 
 // HasMap reports whether values of t can contain a map (non-deterministic encoding).
-func HasMap(t reflect.Type) bool {
+func HasMap(t reflect.Type) bool { return hasMap(t, map[reflect.Type]bool{}) }
+
+func hasMap(t reflect.Type, seen map[reflect.Type]bool) bool {
+	if seen[t] {
+		return false
+	}
+	seen[t] = true
 	switch t.Kind() {
 	case reflect.Map:
 		return true
 	case reflect.Pointer, reflect.Slice, reflect.Array:
-		return HasMap(t.Elem())
+		return hasMap(t.Elem(), seen)
 	case reflect.Struct:
 		for i := 0; i < t.NumField(); i++ {
-			if HasMap(t.Field(i).Type) {
+			if hasMap(t.Field(i).Type, seen) {
 				return true
 			}
 		}
@@ -625,3 +639,43 @@ func TypeString(t reflect.Type) string {
 	}
 	return s
 }
+
+// ---- declared recursive message types ------------------------------------------------------------
+
+// RecMapMsg reaches itself through the values of a map (by value) and through a slice.
+type RecMapMsg struct {
+	Kids map[string]RecMapMsg
+	V    int32
+	L    []RecMapMsg
+}
+
+// PetOwner / Pet: mutually recursive, one of them held by value.
+type PetOwner struct {
+	Pet *Pet
+	N   int32
+}
+type Pet struct {
+	Owner PetOwner
+	S     string
+	Rest  map[int32]*Pet
+}
+
+// RecTagged: the same with protobuf tags and large field numbers.
+type RecTagged struct {
+	Next *RecTagged          `protobuf:"bytes,4096,opt,name=next"`
+	M    map[int64]RecTagged `protobuf:"bytes,2,rep,name=m" protobuf_key:"varint,1,opt,name=key" protobuf_val:"bytes,2,opt,name=value"`
+	V    uint64              `protobuf:"fixed64,70000,opt,name=v"`
+	Ps   []*RecTagged        `protobuf:"bytes,300,rep,name=ps"`
+}
+
+// UnexpFirst has unexported fields before and between exported ones (implicit numbering).
+type UnexpFirst struct {
+	a int
+	B int64
+	c string
+	D string
+	E []int32
+}
+
+// RecLibrary lists declared types used next to the generated ones.
+var RecLibrary = []reflect.Type{reflect.TypeOf(RecMapMsg{}), reflect.TypeOf(PetOwner{}), reflect.TypeOf(Pet{}), reflect.TypeOf(RecTagged{}), reflect.TypeOf(UnexpFirst{})}
